@@ -1,0 +1,122 @@
+//go:build verif
+
+package kafka
+
+import (
+	"fmt"
+	"reflect"
+	"sync"
+)
+
+// Event recorder for the /verif harness (build tag `verif` only).
+//
+// Library code calls `if verifOn { verifEvent("Kind", args...) }` at the atomic steps of its
+// concurrent components; with the tag off verifOn is the constant false and the call is dead code.
+// Pointer-like arguments are recorded as small stable ids ("#3"), never as addresses.
+
+const verifOn = true
+
+// VerifEvent is one recorded event: a kind and its rendered arguments.
+type VerifEvent struct {
+	Seq  int
+	Kind string
+	Args []string
+}
+
+func (e VerifEvent) String() string {
+	s := e.Kind
+	for _, a := range e.Args {
+		s += " " + a
+	}
+	return s
+}
+
+var verifRec struct {
+	mu     sync.Mutex
+	on     bool
+	events []VerifEvent
+	ids    map[uintptr]int
+	sink   func(VerifEvent)
+}
+
+// VerifStart clears the log and starts recording.
+func VerifStart() {
+	verifRec.mu.Lock()
+	verifRec.on = true
+	verifRec.events = nil
+	verifRec.ids = map[uintptr]int{}
+	verifRec.mu.Unlock()
+}
+
+// VerifSetSink installs a function called (under the recorder lock) for every event; it must not call back
+// into the library.  Used to steer schedules (e.g. block at a hook point).  nil removes it.
+func VerifSetSink(f func(VerifEvent)) {
+	verifRec.mu.Lock()
+	verifRec.sink = f
+	verifRec.mu.Unlock()
+}
+
+// VerifStop stops recording and returns the events in the order they were recorded.
+func VerifStop() []VerifEvent {
+	verifRec.mu.Lock()
+	defer verifRec.mu.Unlock()
+	verifRec.on = false
+	ev := verifRec.events
+	verifRec.events = nil
+	return ev
+}
+
+// VerifSnapshot returns a copy of the events recorded so far without stopping.
+func VerifSnapshot() []VerifEvent {
+	verifRec.mu.Lock()
+	defer verifRec.mu.Unlock()
+	return append([]VerifEvent(nil), verifRec.events...)
+}
+
+func verifArg(a interface{}) string {
+	if a == nil {
+		return "nil"
+	}
+	v := reflect.ValueOf(a)
+	switch v.Kind() {
+	case reflect.Ptr, reflect.Chan, reflect.Map, reflect.Func, reflect.UnsafePointer:
+		if v.IsNil() {
+			return "nil"
+		}
+		p := v.Pointer()
+		id, ok := verifRec.ids[p]
+		if !ok {
+			id = len(verifRec.ids) + 1
+			verifRec.ids[p] = id
+		}
+		return fmt.Sprintf("#%d", id)
+	case reflect.String:
+		s := v.String()
+		if s == "" {
+			return `""`
+		}
+		return s
+	}
+	if e, ok := a.(error); ok {
+		return fmt.Sprintf("%q", e.Error())
+	}
+	return fmt.Sprint(a)
+}
+
+func verifEvent(kind string, args ...interface{}) {
+	verifRec.mu.Lock()
+	if !verifRec.on {
+		verifRec.mu.Unlock()
+		return
+	}
+	e := VerifEvent{Seq: len(verifRec.events), Kind: kind, Args: make([]string, len(args))}
+	for i, a := range args {
+		e.Args[i] = verifArg(a)
+	}
+	verifRec.events = append(verifRec.events, e)
+	sink := verifRec.sink
+	verifRec.mu.Unlock()
+	if sink != nil {
+		sink(e)
+	}
+}
